@@ -877,7 +877,9 @@ func dgRunCase(c *Ctx, cs *CaseSet, k *dgCase) {
 	if sh.found {
 		found = VC("Some", VL([]string{dgPathVal(sh.path), VB(true)}))
 	}
-	obs := VL([]string{out, found, dgOptBytes(sh.haveSI, sh.si), dgOptBytes(sh.haveRef, sh.ref), VB(true)})
+	// second component: the entries of this case's canon table on which Canon.canon_model differs from the library (none)
+	obs := VL([]string{VL([]string{out, found, dgOptBytes(sh.haveSI, sh.si), dgOptBytes(sh.haveRef, sh.ref), VB(true)}), VL(nil)})
+	c.Rep.Distribution["canon:table-entries-recomputed-by-model"] += len(t.canon)
 	var storeT []string
 	for _, kp := range k.store {
 		storeT = append(storeT, App("Build_cert", S(string(kp.DER)), Instant(kp.Cert.NotBefore), Instant(kp.Cert.NotAfter)))
